@@ -91,7 +91,10 @@ def main(argv):
     for m in corpus:
         if ids and m['id'] not in ids:
             continue
-        for p in m['props']:
+        plist = m['props']
+        if plist == 'ALL' or plist == ['ALL']:
+            plist = sorted(f[:-3] for f in os.listdir(os.path.join(HERE, 'sa', 'props')) if f.startswith('C') and f.endswith('.py'))
+        for p in plist:
             if props and p not in props:
                 continue
             if not os.path.exists(os.path.join(HERE, 'sa', 'props', p + '.py')):
